@@ -177,6 +177,7 @@ class Monitor(object):
     def install(self):
         if self.installed:
             return
+        originals = {}
         for mod in package_modules():
             short = mod.__name__.split('.', 1)[1]
             for name, obj in sorted(vars(mod).items()):
@@ -185,7 +186,16 @@ class Monitor(object):
                 is_fn = isinstance(obj, types.FunctionType) and obj.__module__ == mod.__name__
                 is_disp = hasattr(obj, 'py_func') and getattr(obj.py_func, '__module__', None) == mod.__name__
                 if is_fn or is_disp:
-                    setattr(mod, name, self.wrap(short + '.' + name, obj))
+                    w = self.wrap(short + '.' + name, obj)
+                    originals[id(obj)] = (obj, w)
+                    setattr(mod, name, w)
+        # names bound by `from kneeliverse.x import f` in other package modules call the same function:
+        # rebind them to the wrapper too, so public-to-public calls stay monitored whatever the import style
+        for mod in package_modules():
+            for name, obj in sorted(vars(mod).items()):
+                hit = originals.get(id(obj))
+                if hit is not None and hit[0] is obj:
+                    setattr(mod, name, hit[1])
         self.installed = True
 
 
